@@ -204,6 +204,7 @@ def r6_6(ctx, rc):
     from . import c18
     c18.r18_3(ctx, rc)
     c18.r18_5(ctx, rc)
+    c18.r18_7(ctx, rc)
 
 
 RULES = [
